@@ -1,0 +1,9 @@
+//go:build verif
+
+package messagequeue
+
+func verifHook(mq *MessageQueue) {
+	if VerifBetweenSections != nil {
+		VerifBetweenSections(mq)
+	}
+}
